@@ -135,7 +135,7 @@ def run(ctx):
             continue
         spread = rng.choice([0.2, 1.5, 7, N / 8, N / 3, N * 0.6, N * 1.3])
         dmv = float(spread / float(unit)) * rng.choice([-1, 1])
-        dm = pb.DM(dmv)
+        dm = X.make_dm(rng, dmv)
         dq = Fraction(dmv)
         dtop, dbot = exact_delay(dq, fmax, frq) * rq, exact_delay(dq, fmin, frq) * rq
         # (an exactly zero delay stays exactly zero in the code only when the reference IS the band-edge object, not a re-expressed copy)
